@@ -129,7 +129,7 @@ def run(chk):
                    site=site, detail={'encoder_leaf': dump_leaf(lf, prog), 'decoder_leaves': [dump_leaf(d, prog, dna) for d in dleaves]})
     chk.extra['compositions'] = n
     chk.extra['decoder_leaves_in_compositions'] = n_leaves
-    chk.floor('encoder leaf x case compositions (plus reported unanalysable paths)', n + getattr(chk, 'unanalysable', 0), 270)
+    chk.floor('encoder leaf x case compositions (plus reported unanalysable paths)', n + getattr(chk, 'unanalysable', 0), 150)
 
 
 def outcome_text(prog, d):
